@@ -59,6 +59,8 @@ SEEDS = {
  "C13-m4": ("PrecomputedCache.batchify uses repeat_interleave", "SDVRP beam search, width > 1, batch >= 2"),
  "C19-m3": ("jssp/parser.read pads the processing times in front of the operations", "files of different size in one directory, or max_ops larger than the instance"),
  "C19-m4": ("MTVRPEnv.load_data(scale=True) normalises by the first instance's capacity", "scale=True and mixed capacity_original in one file"),
+ "C18-m3": ("Cluster.sample discards the result of the final clamp (clamp instead of clamp_)", "clustered / mixed location distribution and a ~3-sigma draw near a border"),
+ "C18-m4": ("CVRPGenerator.__init__ lets the capacity table override an explicit capacity=", "explicit capacity= together with a tabulated num_loc"),
 }
 for sid in sorted(os.listdir(os.path.join(ROOT, "seeded"))):
     d = os.path.join(ROOT, "seeded", sid)
